@@ -60,6 +60,15 @@ def check(tier, seed, replay=None):
             meta[cfg[:-4]] = m
             cases += cs
         cases = cases + perturb(cases, seed)
+        # variables called like words of the LP format (valid names of the modelling language)
+        Bd = lambda n: {"inf": 0, "n": n, "d": 1}
+        var = lambda n, k="nnreal": {"name": n, "kind": k, "lo": Bd(0), "hi": ({"inf": 1, "n": 0, "d": 1} if k == "nnreal" else Bd(1))}
+        rw = lambda a, cmp, b: {"a": a, "cmp": cmp, "b": b, "name": ""}
+        cases += [
+            {"id": "h_keyword_st_end", "sense": "max", "obj": [1, 2], "off": 0, "den": 1, "vars": [var("end"), var("st")], "rows": [rw([1, 1], "le", 4)]},
+            {"id": "h_keyword_free_bin", "sense": "min", "obj": [1, 1], "off": 0, "den": 1, "vars": [var("bin"), var("free")], "rows": [rw([1, 2], "ge", 2)]},
+            {"id": "h_keyword_subject_to", "sense": "max", "obj": [1, 1], "off": 0, "den": 1, "vars": [var("subject", "bool"), var("to", "bool")], "rows": [rw([1, 1], "le", 1)]},
+        ]
         for i, c in enumerate(cases):
             c["id"] = f"{c['id']}#{i}"
     events = core.rv_parallel("lpexport", cases, prop, procs=8)
@@ -71,7 +80,7 @@ def check(tier, seed, replay=None):
         ev = byid.get(r[2], {})
         case = bycase.get(r[2], {})
         named = sorted({row["name"] for row in case.get("rows", []) if row["name"]})
-        sig = f"{r[3]}" + (f" [user row names {named}]" if "name" in r[3] else "")
+        sig = f"{r[3]}" + (f" [user row names {named}]" if "name" in r[3] and not r[3].startswith("KNOWN-") else "")
         o.violation(sig, case, f"{r[3]}: {r[4] if len(r) > 4 else ''}\n{ev.get('text','')}")
     toks = sum(s[2] for s in v.stats)
     samples = [{"id": e["id"], "lp_text": e["text"]} for e in events[:400:150] if e.get("out") == "ok"]
